@@ -23,7 +23,7 @@ class Ctx(object):
         self.obj = obj
         self.info = info
         self.pool = info["pool"]
-        self.encs = []       # (step id of an enc on this object, kind of data)
+        self.encs = info.setdefault("encs", [])   # results of earlier enc calls (shared with twin/cousin objects)
         self.aux = info.get("aux", {})
         self.open_gens = info.setdefault("open_gens", [])   # generators started and left suspended
 
@@ -716,7 +716,7 @@ def mk_md5(rng, pb, px):
 
 
 def mk_md6(rng, pb, px):
-    r = {"kind": "MD6", "d": rng.choice([128, 160, 256]), "L": rng.choice([0, 0, 1, 64])}
+    r = {"kind": "MD6", "d": rng.choice([128, 160, 256, 30, 125]), "L": rng.choice([0, 0, 1, 64])}
     if rng.random() < 0.3:
         r["key"] = B(rbytes(rng, rng.randint(1, 16)))
     return pb.obj(r), {"bb": 384, "w": 8, "pool": make_pool(rng, [0, 1, 10, 63, 64, 100])}
@@ -748,7 +748,8 @@ def mk_blake2_s(rng, pb, px):
 
 
 _KCFG = [(1600, 576, 512), (1600, 448, 224), (1600, 512, 256), (1600, 1024, 512), (800, 256, 128),
-         (400, 144, 64), (200, 72, 40), (1600, 264, 256), (100, 60, 16), (50, 10, 16)]
+         (400, 144, 64), (200, 72, 40), (1600, 264, 256), (100, 60, 16), (50, 10, 16),
+         (1600, 512, 30), (1600, 512, 32), (200, 72, 13), (400, 144, 61)]      # output lengths that are not whole bytes too
 
 
 def _kinfo(rng, b, c):
@@ -901,6 +902,8 @@ def _mode_cipher(rng, pb, px, even=False):
 
 def _mode_info(rng, bb, pad, proxy):
     lens = sorted(set([0, 1, max(0, bb - 1), bb, bb + 1, 2 * bb, 2 * bb + 1, 3 * bb - 1]))
+    if bb <= 8 and rng.random() < 0.3:
+        lens += [9 * bb, 12 * bb + 1]              # many blocks (cheap block ciphers only)
     info = {"bb": bb, "pool": make_pool(rng, lens), "pad": pad}
     if pad == "nopadding":
         info["aligned_only"] = True
@@ -922,6 +925,8 @@ def mk_cbc(rng, pb, px):
     c, bb, p = _mode_cipher(rng, pb, px)
     pad = rng.choice([None, None, "pkcs7", "X923", "bitpadding", "Nullpadding", "nopadding"])
     r = {"kind": "CBC", "cipher": {"obj": c}, "iv": B(rbytes(rng, bb))}
+    if rng.random() < 0.2:
+        r["iv"] = {"ba": r["iv"]["b"]}          # the IV handed over as a bytearray
     if pad:
         r["pad"] = pad
     return pb.obj(r), _mode_info(rng, bb, pad or "pkcs7", p)
@@ -935,6 +940,8 @@ def mk_ctr(rng, pb, px):
         r["counter"] = B(rbytes(rng, bb))
     elif v < 0.9:
         iv = rbytes(rng, bb // 2) + b"\xff" * (bb // 2 - 1) + bytes([rng.choice([0xfe, 0xff, 0])])
+        if rng.random() < 0.2:
+            iv = b"\xff" * (bb - 1) + bytes([rng.choice([0xfe, 0xff])])       # the whole block wraps
         dc = pb.obj({"kind": "DefaultCounter", "bytesize": bb, "iv": B(iv)})
         if px and p is None:
             p = pb.obj({"kind": "proxy", "inner": {"obj": dc}})
@@ -1096,7 +1103,7 @@ def _cz_sha3(rng, rec, info):
 def _cz_keccak(rng, rec, info):
     b = rec["b"]
     if rng.random() < 0.5:
-        rec["len"] = _other(rng, rec["len"], [16, 64, 128, 224, 256, 512])
+        rec["len"] = _other(rng, rec["len"], [16, 64, 128, 224, 256, 512, 13, 30, 32, 61])
     else:
         c = _other(rng, rec["c"], [x for x in (8, 16, 24, 40, 64, 72, 128, 144, 256, 448, 512, 576, 1024) if x < b and b - x <= 1536])
         rec["c"] = c
@@ -1106,7 +1113,7 @@ def _cz_keccak(rng, rec, info):
 
 def _cz_md6(rng, rec, info):
     if rng.random() < 0.5:
-        rec["d"] = _other(rng, rec.get("d", 512), [128, 160, 256])
+        rec["d"] = _other(rng, rec.get("d", 512), [128, 160, 256, 30, 32, 125])
     else:
         rec["L"] = _other(rng, rec.get("L", 0), [0, 1, 64])
 
@@ -1157,8 +1164,9 @@ def _cz_mode(rng, rec, info):
         rec["pad"] = _other(rng, cur, ["pkcs7", "X923", "bitpadding"] if cur != "nopadding" else ["nopadding"])
         info["pad"] = rec["pad"]
     elif "iv" in rec:
-        iv = bytes.fromhex(rec["iv"]["b"])
-        rec["iv"] = B(bytes([iv[0] ^ 1]) + iv[1:]) if iv else rec["iv"]
+        kk = "ba" if "ba" in rec["iv"] else "b"
+        iv = bytes.fromhex(rec["iv"][kk])
+        rec["iv"] = {kk: (bytes([iv[0] ^ 1]) + iv[1:]).hex()} if iv else rec["iv"]
     elif isinstance(rec.get("counter"), dict) and "b" in rec["counter"]:
         cv = bytes.fromhex(rec["counter"]["b"])
         rec["counter"] = B(bytes([cv[0] ^ 1]) + cv[1:]) if cv else rec["counter"]
@@ -1421,6 +1429,12 @@ class C10(Machine):
             for _ in range(rng.randint(1, 3)):
                 emit(tgt, c, rng.choice(tnames))
         plan = pb.finish(rng)
+        # argument types: one message in ten is handed over as a bytearray instead of bytes
+        for st_ in plan["steps"]:
+            if st_["k"] == "call" and st_.get("cls") in (CHK, HIST) and st_.get("args") and rng.random() < 0.1:
+                a0 = st_["args"][-1] if st_.get("name") in ("enc", "dec") and len(st_["args"]) == 2 else st_["args"][0]
+                if isinstance(a0, dict) and set(a0) == {"b"}:
+                    a0["ba"] = a0.pop("b")
         # fault plan: interrupts / collaborator failures on 1-2 call steps
         calls = [s for s in plan["steps"] if s["k"] in ("call", "pull") and s.get("cls") != BAD and not s.get("core")]
         nf = 0
@@ -1592,8 +1606,8 @@ class C10(Machine):
         clean = all(s.get("k") == "call" and s.get("name") in ("enc", "dec") and not s.get("fault")
                     and outc.get(str(s["id"]), ["?"])[0] == "ok" for s in before)
         encs = [s for s in before if s.get("name") == "enc"]
-        if clean and encs and isinstance(encs[-1]["args"][0], dict) and "b" in encs[-1]["args"][0]:
-            n = len(encs[-1]["args"][0]["b"]) // 2
+        if clean and encs and isinstance(encs[-1]["args"][0], dict) and ("b" in encs[-1]["args"][0] or "ba" in encs[-1]["args"][0]):
+            n = len(encs[-1]["args"][0].get("b", encs[-1]["args"][0].get("ba"))) // 2
             r = n % L
             qs = [8 * L if n == 0 else (0 if r == 0 else 8 * (L - r))]
         else:
@@ -1613,10 +1627,12 @@ class C10(Machine):
         rec = plan["objects"][oi]
         if rec.get("kind") not in ("ECB", "CBC") or rec.get("pad") != "Nullpadding":
             return False
-        if any(s.get("obj") != oi for s in steps):
+        # steps on other objects may only be enc calls that provide the ciphertext being decrypted
+        if any(s.get("obj") != oi and not (s.get("k") == "call" and s.get("name") == "enc") for s in steps):
             return False
         if steps[-1].get("name") != "dec" or steps[-1]["id"] != v["step"]:
             return False
+        steps = [s for s in steps if s.get("obj") == oi]
         # what padded last on this object: an enc(M), or the (public) pad object driven directly
         # over M and drained; nothing else may appear in the minimal history
         m = None
@@ -1632,9 +1648,9 @@ class C10(Machine):
                 continue
             else:
                 return False
-        if not (isinstance(m, dict) and "b" in m):
+        if not (isinstance(m, dict) and ("b" in m or "ba" in m)):
             return False
-        n = len(m["b"]) // 2
+        n = len(m.get("b", m.get("ba"))) // 2
         cip = plan["objects"][rec["cipher"]["obj"]]
         while cip.get("kind") == "proxy":
             cip = plan["objects"][cip["inner"]["obj"]]
